@@ -325,7 +325,7 @@ impl Prop for C14 {
                 continue;
             }
             for n in 1..=5usize {
-                for k in 0..tier.pick(100, 1000) {
+                for k in 0..tier.pick(100, 20_000) {
                     v.push(json!({"kind": "hist", "ty": ty, "peers": n, "per": 5, "late": k % 2, "leavers": false,
                                   "seed": mix(seed ^ 0xC14 ^ (k as u64) << 8 ^ n as u64)}));
                 }
